@@ -3,6 +3,8 @@ package main
 import (
 	"fmt"
 	"math/rand"
+	"os"
+	"strings"
 
 	"verif/harness/internal/smf"
 )
@@ -20,7 +22,7 @@ func writeRec(c *Ctx, d Doc, fl Flags, tracks int, alsoSingle bool, extra ...str
 		// a clean refusal: a message, a non-zero status, no output
 		"refused": r.Exit > 0 && !r.TimedOut && !r.Panic && len(r.Stdout) == 0 && len(r.Stderr) > 0}
 	if alsoSingle {
-		args1 := append([]string{"write", "--track", "1"}, fl.Args()...)
+		args1 := append(append([]string{"write", "--track", "1"}, fl.Args()...), extra...)
 		r1 := c.crd(args1, d.YAML())
 		f1 := smf.Parse(r1.Stdout)
 		rec["ok1"] = r1.Exit == 0 && !r1.TimedOut && !r1.Panic && f1.Err == "" && len(r1.Stdout) > 0
@@ -49,6 +51,17 @@ func writeExec(alsoSingle bool) func(c *Ctx, k Case) []Rec {
 		}
 		if dg := cs(k, "absurd"); dg != "" {
 			return []Rec{absurdRec(c, dg, cb(k, "rest"), tr)}
+		}
+		if n := ci(k, "bigchord"); n > 0 {
+			// a user chord with n attributes (more notes than any small counter holds), called "big"
+			names := []string{"Perfect1", "Major2", "Major3", "Perfect4", "Perfect5", "Major6", "Major7", "Perfect8", "Major9", "Major10", "Perfect11", "Perfect12", "Major13"}
+			as := []string{}
+			for i := 0; i < n; i++ {
+				as = append(as, names[i%len(names)])
+			}
+			f := c.writeTemp(fmt.Sprintf("big%d.yml", nextID()), "- name: Big\n  meta: {display: big}\n  attributes: ["+strings.Join(as, ", ")+"]\n")
+			defer os.Remove(f)
+			return []Rec{writeRec(c, caseToDoc(k["doc"]), caseToFlags(k["flags"]), tr, alsoSingle, "--chord", f)}
 		}
 		if cb(k, "debug") {
 			return []Rec{writeRec(c, caseToDoc(k["doc"]), caseToFlags(k["flags"]), tr, alsoSingle, "--debug")}
@@ -299,6 +312,13 @@ func init() {
 					Case{"doc": Doc{chd("1", 1), longRest("a"), longRest("b"), longRest("c"), chd("5", 1)}, "flags": Flags{}, "tracks": n},
 					Case{"doc": Doc{chd("1", 1), longRest("a"), {Rest: true, Vals: []Frac{{100000, 1}}, BPM: 80}, {Rest: true, Vals: []Frac{{79000, 1}}, Mrk: "m"}, chd("5", 1)}, "flags": Flags{}, "tracks": n},
 					Case{"doc": Doc{{Deg: "1", Sym: "", Vals: []Frac{{140000, 1}}}, {Deg: "4", Sym: "", Vals: []Frac{{140000, 1}}}, {Deg: "5", Sym: "7", Vals: one()}}, "flags": Flags{}, "tracks": n + 4})
+			}
+			// a chord with 257 / 300 notes (a user chord), after a rest and before another chord
+			for _, n := range []int{257, 300} {
+				for _, tr := range []int{1, 2, 5} {
+					cases = append(cases, Case{"doc": Doc{{Deg: "1", Sym: "", Vals: one()}, {Rest: true, Vals: []Frac{{3, 2}}}, {Deg: "1", Sym: "big", Vals: []Frac{{2, 1}}}, {Deg: "5", Sym: "", Vals: one()}, {Rest: true, Vals: one()}},
+						"flags": Flags{}, "tracks": tr, "bigchord": n})
+				}
 			}
 			// chords far above the MIDI range (whatever becomes of their pitches, time goes on): after a rest, on N tracks
 			for _, n := range []int{1, 2, 5} {
